@@ -625,6 +625,9 @@ def run_c16(ck, fb, fbd):
                     ok = ("halfface(" in s and "face(" not in s.replace("halfface(", "")) or ("face(" in s and reverse_walk)
                     (ck.ok if ok else lambda r, w, t: ck.violate(r, w, t, "C16.tables:accessor:%s:%s" % (h.name, v["n"])))("C16.tables", h.loc(d), "%s: the walked halfedge list %s comes from the orientation-aware halfface() accessor (%s)" % (h.name, v["n"], s[:60]))
     sheet_rule(ck, fb)
+    # the hexahedral sheet circulators collect their elements in the constructor (shared with C05)
+    from .c05 import collectors
+    collectors(ck, fb)
     ck.rule("C11.valence", "hexahedral add_face/add_cell reach the base implementation only with 4/6 entries")
     valence_guards(ck, fb, HEX)
 
